@@ -4,7 +4,7 @@ CONSTANTS
   LimChoices = {0, 1, 2}
   WlPairs <- WlAll
   ReadyPods = {"p1", "p2", "p3"}
-  SkipChoices = {FALSE}
+  SkipChoices = {TRUE, FALSE}
   GateChoices <- GatesNone
 INVARIANT TypeOK
 INVARIANT DupInv
